@@ -334,4 +334,77 @@ def r09_7(ctx):
             o["rule"] = "R09.7"
 
 
-RULES = [("R09.1", r09_1), ("R09.2", r09_2), ("R09.3", r09_3), ("R09.4", r09_4), ("R09.5", r09_5), ("R09.6", r09_6), ("R09.7", r09_7), ("R09.8", r09_8)]
+def r09_9(ctx):
+    """incremental invalid-UTF-8 tracking: an offset reported by a validator that was run over the unread
+    tail input[index..] is relative to that tail; before it is stored as an absolute position it has to
+    be rebased by the index the tail started at"""
+    prog = ctx.prog()
+    fs = [f for f in prog.fns.values() if f.crate == "sonic_rs" and f.name == "check_invalid_utf8" and f.trait == "sonic_rs::reader::Reader" and (f.self_adt or "").endswith("reader::Read")]
+    if len(fs) != 1:
+        ctx.fail_closed("R09.9", "impl Reader for Read::check_invalid_utf8")
+        return
+    f = fs[0]
+    bodies = prog.with_closures(f)
+    fu = [(g, b, t) for g in bodies for b, t in g.calls() if callee_is(t, "from_utf8")]
+    ok_tail = False
+    for g, b, t in fu:
+        l = op_local(t["args"][0])
+        sl, leaves = backward_slice(g, [l]) if l is not None else (set(), [])
+        if any(lf[0] == "place" and "index" in [e[2] for e in lf[1][1] if isinstance(e, list) and e[0] == "."] for lf in leaves):
+            ok_tail = True
+    ctx.ob("R09.9", "validates-unread-tail", ok_tail, f.loc(), "the validator runs over the unread tail input[index..]", nontrivial=False)
+    # stores to next_invalid_utf8
+    stores = []
+    for g in bodies:
+        for b, i, s_ in g.assigns():
+            names = [e[2] for e in s_["lhs"][1] if isinstance(e, list) and e[0] == "."]
+            if names[-1:] == ["next_invalid_utf8"]:
+                stores.append((g, b, s_))
+    ctx.floor("R09.9", "stores to next_invalid_utf8 in check_invalid_utf8", len(stores), 1)
+    for g, b, s_ in stores:
+        ls = [p[0] for p in __import__("sa.analysis", fromlist=["rv_places"]).rv_places(s_["rv"])]
+        sl, leaves = backward_slice(g, ls)
+        # follow into closures called through map_or / map etc.: look at every body of the function
+        off = False
+        idx = False
+        for h in bodies:
+            for bb, tt in h.calls():
+                if callee_is(tt, "offset", "valid_up_to"):
+                    off = True
+        for lf in leaves:
+            if lf[0] == "place" and "index" in [e[2] for e in lf[1][1] if isinstance(e, list) and e[0] == "."]:
+                idx = True
+        # the rebasing addition: some Add whose operands derive from the offset call and from .index
+        rebased = False
+        for h in bodies:
+            for bb, ii, ss in h.assigns():
+                rv = ss["rv"]
+                if rv["k"] == "binop" and rv["op"].startswith("Add"):
+                    la, lb = op_local(rv["a"]), op_local(rv["b"])
+                    srcs = []
+                    for x in (la, lb):
+                        if x is None:
+                            srcs.append(set())
+                            continue
+                        xs, xl = backward_slice(h, [x])
+                        tags = set()
+                        for lf in xl:
+                            if lf[0] == "call" and callee_is(lf[2], "offset", "valid_up_to"):
+                                tags.add("off")
+                            if lf[0] == "place" and "index" in [e[2] for e in lf[1][1] if isinstance(e, list) and e[0] == "."]:
+                                tags.add("idx")
+                        srcs.append(tags)
+                    if ("off" in srcs[0] and "idx" in srcs[1]) or ("idx" in srcs[0] and "off" in srcs[1]):
+                        rebased = True
+        ctx.ob("R09.9", f"rebased-offset@{len([o for o in ctx.obligations if o['rule'] == 'R09.9'])}", (not off) or rebased, g.loc(s_["ln"]),
+               "the validator's offset (relative to the tail) is added to the index before it is stored as the next invalid position" if rebased else
+               "the validator's offset, relative to input[index..], is stored as an absolute position without adding the index: later valid literals are classified as invalid UTF-8")
+
+
+def r09_s(ctx):
+    """the result does not depend on the literal's offset: escape carry across SIMD blocks (shared with C13)"""
+    from . import c13
+    ctx.include(c13.r13_6, 'R09.S')
+
+
+RULES = [("R09.1", r09_1), ("R09.2", r09_2), ("R09.3", r09_3), ("R09.4", r09_4), ("R09.5", r09_5), ("R09.6", r09_6), ("R09.7", r09_7), ("R09.8", r09_8), ("R09.9", r09_9), ("R09.S", r09_s)]
